@@ -88,6 +88,24 @@ func c14Sess(ctx context.Context, s Session, end func(bool)) verifc14.Sess {
 			_, err := s.Exec(q)
 			return err
 		},
+		PExec: func(q string) error {
+			if ctx != nil {
+				st, err := s.PrepareCtx(ctx, q)
+				if err != nil {
+					return err
+				}
+				defer st.Close()
+				_, err = st.ExecCtx(ctx)
+				return err
+			}
+			st, err := s.Prepare(q)
+			if err != nil {
+				return err
+			}
+			defer st.Close()
+			_, err = st.Exec()
+			return err
+		},
 		Query: func(q string) error {
 			var out []string
 			var err error
